@@ -33,8 +33,18 @@ def path_facts(ctx, nid):
                     pp, q = p, pol
                     while isinstance(pp, ast.UnaryOp) and isinstance(pp.op, ast.Not):
                         pp, q = pp.operand, not q
-                    facts.add((seg(pp), q))
+                    facts.add(norm_fact(pp, q))
     return facts
+
+
+def norm_fact(pp: ast.expr, q: bool):
+    """normal form of a fact: `x is not None` (q) == `x is None` (not q); `a != b` (q) == `a == b` (not q)"""
+    if isinstance(pp, ast.Compare) and len(pp.ops) == 1:
+        if isinstance(pp.ops[0], ast.IsNot):
+            return (seg(ast.Compare(left=pp.left, ops=[ast.Is()], comparators=pp.comparators)), not q)
+        if isinstance(pp.ops[0], ast.NotEq):
+            return (seg(ast.Compare(left=pp.left, ops=[ast.Eq()], comparators=pp.comparators)), not q)
+    return (seg(pp), q)
 
 
 def scalar_arm(ctx, other: str):
